@@ -164,8 +164,9 @@ CHECKS = {
                      'callbacks exactly once at the trigger time, condition fire time and members, interrupts one per yield in '
                      'call order within the same time step, nothing after until, until value, unhandled failure, nobody left waiting.',
                 note='Ties inside one time step (an AnyOf member failing in the step in which another fires) are accepted either '
-                     'way; the clock reading after run(until=T) is not judged (DESIGN.md section 6). Embedding in a native '
-                     'simulation is covered only through yielded native notifications.',
+                     'way; the clock reading after run(until=T) is not judged (DESIGN.md section 6). A sample of the '
+                     'scripts also runs embedded in a native simulation (`usim.run(env.until(..), native_activity)`) with a native '
+                     'activity awaiting a SimPy event.',
                 technique='TLA+ script space SimPyEv enumerated by TLC; scripts replayed on the real usim.py layer; traces validated '
                           'by TLC against the TLA+ monitor ObsC18'),
     'C02': dict(obs='ObsC02', ref='4/C02',
